@@ -16,8 +16,9 @@ type vwSink struct {
 	failAt int // 1-based call index that fails (0 = never)
 	err    error
 	short  bool
-	after  int // calls made after the failure was reported
-	failed bool
+	after   int // calls made after the failure was reported
+	failed  bool
+	recover bool // fails exactly once, then accepts data again
 }
 
 func (s *vwSink) Write(p []byte) (int, error) {
@@ -29,7 +30,7 @@ func (s *vwSink) Write(p []byte) (int, error) {
 		s.failed = true
 		return 0, s.err
 	}
-	if s.failed {
+	if s.failed && !s.recover {
 		return 0, s.err
 	}
 	s.b = append(s.b, p...)
@@ -107,8 +108,24 @@ const (
 	opFlush
 	opClose
 	opReset
+	opWriteHuge // more than 32767 tokens worth of poorly compressible data (tiny-window settings only)
 	opCount
 )
+
+const vwHuge = 36000
+
+// vwNoise is poorly compressible data.
+func vwNoise(n int) []byte {
+	d := make([]byte, n)
+	x := uint32(99991)
+	for i := range d {
+		x ^= x << 13
+		x ^= x >> 17
+		x ^= x << 5
+		d[i] = byte(x >> 11)
+	}
+	return d
+}
 
 // vwCheckStream decodes emitted bytes with the reference inflater.
 // mode 0: must be a complete stream of want; mode 1 (after Flush): must decode to want and then need more input.
@@ -148,8 +165,21 @@ func VerifWrSeq() {
 	for i := 0; i < K; i++ {
 		op := int(verifrt.U8())
 		verifrt.Assume(op < opCount)
+		if verifrt.Param("HUGE") == 0 || setting < 5 {
+			verifrt.Assume(op != opWriteHuge)
+		}
 		op = verifrt.Concretize(op)
 		switch op {
+		case opWriteHuge:
+			hd := vwNoise(vwHuge)
+			k, err := w.Write(hd)
+			if closed {
+				verifrt.Assert(err != nil, "C16:write-after-close-succeeds")
+			} else {
+				verifrt.Assert(err == nil && k == vwHuge, "C16:write-fails")
+				written = append(written, hd...)
+				verifrt.Cover("huge")
+			}
 		case opWrite0, opWriteSmall, opWriteBig:
 			n := 0
 			if op == opWriteSmall {
@@ -235,7 +265,7 @@ func VerifWrFail() {
 	fault := verifrt.ErrValue("dst")
 	k := int(verifrt.U8())
 	verifrt.Assume(k >= 1 && k <= verifrt.Param("KMAX"))
-	sink := &vwSink{failAt: verifrt.Concretize(k), err: fault}
+	sink := &vwSink{failAt: verifrt.Concretize(k), err: fault, recover: verifrt.Pick("recover", 2) == 1}
 	w := vwNew(setting, sink, tinyW)
 	big := vwBig(setting, tinyW)
 	data := vwData(K*big + 64)
@@ -244,12 +274,21 @@ func VerifWrFail() {
 	closedOK := false
 	for i := 0; i < K; i++ {
 		op := int(verifrt.U8())
-		verifrt.Assume(op < opReset && op != opWrite0)
+		if verifrt.Param("HUGE") == 1 && setting >= 5 {
+			verifrt.Assume((op < opReset && op != opWrite0 && op != opWriteBig) || op == opWriteHuge)
+		} else {
+			verifrt.Assume(op < opReset && op != opWrite0)
+		}
 		op = verifrt.Concretize(op)
 		wasFailed := sink.failed
 		callsBefore := sink.calls
 		var err error
 		switch op {
+		case opWriteHuge:
+			hd := vwNoise(vwHuge)
+			_, err = w.Write(hd)
+			written = append(written, hd...)
+			verifrt.Cover("huge")
 		case opWriteSmall, opWriteBig:
 			n := 5
 			if op == opWriteBig {
